@@ -1821,7 +1821,8 @@ class _GroupElem(ABC):
         dim = self.__dim
         connect = self._global_to_local_nodes[self.connect]
 
-        tol = 1e-12
+        # tolerance (a length) relative to the size of the coordinates: the round-off of the tests below is ~ 1e-16 |coord|
+        tol = 1e-12 * max(1.0, float(np.max(np.abs(self.coord[connect[elem]]))))
 
         if dim == 0:
             coord = self.coord[connect[elem, 0]]
@@ -2234,7 +2235,8 @@ class _GroupElem(ABC):
         else:
             xn, yn, zn = coordinates_n.T
             xe, ye, ze = coordElem.T
-            tol = 1e-12
+            # relative to the size of the coordinates (see Get_pointsInElem)
+            tol = 1e-12 * max(1.0, float(np.max(np.abs(coordElem))))
 
             idx = np.where(
                 (xn >= np.min(xe) - tol)
